@@ -3,9 +3,10 @@
   Property theorems only; helper lemmas live in Lemmas/Digits.lean and Lemmas/Num.lean.
 -/
 import StVerif.Lemmas.Num
+import StVerif.Lemmas.NumParse
 
 namespace StVerif.Props.C12
-open StVerif StVerif.Num StVerif.Spec.Digits StVerif.Lemmas.Digits StVerif.Lemmas.Num
+open StVerif StVerif.Num StVerif.Spec.Digits StVerif.Lemmas.Digits StVerif.Lemmas.Num StVerif.Lemmas.NumParse
 
 /-- a base the library documents: 2 … 36 -/
 def ValidBase (b : Nat) : Prop := 2 ≤ b ∧ b ≤ 36
@@ -262,6 +263,39 @@ theorem flags_meaning (t : IntTy) (s : List Nat) (base : Nat) :
     | cons a r =>
       unfold toIntTy toIntTyR toLongR toUlongR toLong toUlong
       by_cases ht : t.signed = true <;> simp [ht]
+
+/-- the characters consumed always lie inside the string: `endp ≤ size()`, so `full_match` (`endp = size()`)
+    does mean that all of them were consumed -/
+theorem consumed_within (s : List Nat) (base : Nat) :
+    (strtol s base).endp ≤ s.length ∧ (strtoul s base).endp ≤ s.length :=
+  ⟨strtol_endp_le s base, strtoul_endp_le s base⟩
+
+/-- a base `strtol` accepts: 0 (auto-detect) or 2 … 36 -/
+def ParseBase (b : Nat) : Prop := b = 0 ∨ (2 ≤ b ∧ b ≤ 36)
+
+/-- The transcription of glibc's `strtol`/`strtoul` computes the *declarative* numeral prefix
+    (`Spec.Digits.parseSpec`: white space, optional sign, optional `0x` when a hex digit follows, longest
+    digit run; base 0 auto-detects) with the standard saturation, and stores its length through `endptr` —
+    for every text and every legal base.  (That the transcription is what this platform's libc does is
+    validated by the correspondence run, not proved.) -/
+theorem strtol_eq_parseSpec (base : Nat) (hb : ParseBase base) (s : List Nat) :
+    (strtol s base).value = clampSigned 64 (parseSpec base s) ∧ (strtol s base).endp = (parseSpec base s).consumed ∧
+    (strtoul s base).value = clampUnsigned 64 (parseSpec base s) ∧ (strtoul s base).endp = (parseSpec base s).consumed :=
+  ⟨(strtol_eq_spec base hb s).1, (strtol_eq_spec base hb s).2, (strtoul_eq_spec base hb s).1, (strtoul_eq_spec base hb s).2⟩
+
+/-- Parsing arbitrary text, in terms of the specification only: a non-empty string gives the clamped
+    value of its numeral prefix narrowed to the result type, `ok` ⇔ the prefix is non-empty, `full_match`
+    ⇔ the prefix is the whole string -/
+theorem parse_meaning (t : IntTy) (s : List Nat) (hs : s ≠ []) (base : Nat) (hb : ParseBase base) :
+    toIntTyR t s base =
+      (if t.signed then toSigned t.bits (wrapW 64 (clampSigned 64 (parseSpec base s)))
+       else (((clampUnsigned 64 (parseSpec base s)) % 2 ^ t.bits : Nat) : Int),
+       { ok := decide ((parseSpec base s).consumed ≠ 0), fullMatch := decide ((parseSpec base s).consumed = s.length) }) := by
+  obtain ⟨h1, h2, h3, h4⟩ := strtol_eq_parseSpec base hb s
+  by_cases ht : t.signed = true
+  · rw [(flags_meaning t s base).2.1 hs ht, h1, h2]; simp [ht]
+  · have ht' : t.signed = false := by simpa using ht
+    rw [(flags_meaning t s base).2.2.1 hs ht', h3, h4]; simp [ht']
 
 /-- Narrowing: `to_short`/`to_int` are `static_cast`s of `to_long` (two's-complement reduction),
     `to_ushort`/`to_uint` of `to_ulong`, with the same flags; a value that fits the narrower type is
